@@ -238,7 +238,7 @@ def run_history(case):
     env = Env(cas_start=cfg.get("cas_start", 0))
     clock = env.clock
     c = env.client(kind, key_prefix=cfg.get("key_prefix", b""), default_noreply=cfg.get("default_noreply", True),
-                   **({"allow_unicode_keys": True} if cfg.get("allow_unicode_keys") else {}))
+                   **({"allow_unicode_keys": True} if cfg.get("allow_unicode_keys") else {}), **({"ignore_exc": True} if cfg.get("ignore_exc") else {}))
     universe = KEYS + (UKEYS if cfg.get("allow_unicode_keys") else [])
     model = Model(clock, cfg.get("default_noreply", True))
     model.refuse = dict(cfg.get("refuse") or {})
@@ -258,6 +258,19 @@ def run_history(case):
             # HashClient offers no item syntax: use the calls the item syntax stands for
             r = {"setitem": dict(r, op="set", noreply=True), "getitem": dict(r, op="get"), "delitem": dict(r, op="delete", noreply=True)}[op]
             op = r["op"]
+        if op == "handover":
+            # the application goes on with a shallow copy of the object (or with a copy of a copy) and lets the original go;
+            # or it makes a copy, drops the copy and goes on with the original
+            import copy
+            import gc
+            d = copy.copy(c)
+            if r.get("keep") == "copy":
+                c = d
+            del d
+            gc.collect()
+            labels.add("went-on-with-" + ("a-copy" if r.get("keep") == "copy" else "the-original"))
+            dependent = dependent or i > 0
+            continue
         if op == "advance":
             clock.advance(r["seconds"])
             if any(it[2] > 0 and it[2] <= clock.now for it in model.d.values()):
@@ -405,6 +418,15 @@ def exhaustive_cases(tier, seed):
                         yield {"kind": kind, "cfg": {"key_prefix": b"r:" if pos else b"", "default_noreply": False, "refuse": {keys[pos]: mode}},
                                "steps": pre + [{"op": "set_many", "values": vals, "noreply": nr}, {"op": "get_many", "keys": keys}, {"op": "add", "key": keys[pos], "value": b"a", "noreply": False},
                                                {"op": "set", "key": keys[pos], "value": b"again", "noreply": nr}, {"op": "gets", "key": keys[(pos + 1) % 3]}]}
+    # a shallow copy of the object takes over (or is made and dropped) at every position of a short history
+    hs = [{"op": "set", "key": K, "value": b"5", "noreply": False}, {"op": "add", "key": K, "value": b"a", "noreply": False}, {"op": "incr", "key": K, "delta": 2},
+          {"op": "get", "key": K}, {"op": "delete", "key": K, "noreply": False}, {"op": "set", "key": "k1", "value": b"n", "noreply": True}, {"op": "gets", "key": "k1"}]
+    for pos in range(len(hs) + 1):
+        for keep in ("copy", "original"):
+            for kind in ("client", "pooled", "hash", "hash-pooled"):
+                for ie in (False, True):
+                    yield {"kind": kind, "cfg": {"key_prefix": b"", "default_noreply": False, "ignore_exc": ie},
+                           "steps": hs[:pos] + [{"op": "handover", "keep": keep}] + hs[pos:] + [{"op": "handover", "keep": keep}, {"op": "get", "key": K}]}
     # the noreply flag (per call and as the client's default) spelled as a non-bool: it counts by its truth value
     for sp in (0, "", 0.0, 1, "no", 2, [0]):
         for dn in (True, False, 1, 0, "yes", ""):
@@ -467,7 +489,8 @@ def _history_strategy(tier, uni):
         withopt(st.fixed_dictionaries({"op": st.just("set_many"), "values": st.dictionaries(key, value, max_size=3)}), {"expire": expire, "noreply": noreply}),
         st.fixed_dictionaries({"op": st.just("setitem"), "key": key, "value": value}),
         st.fixed_dictionaries({"op": st.just("delitem"), "key": key}),
-        st.fixed_dictionaries({"op": st.just("advance"), "seconds": st.sampled_from([1, 1, 2, 3, 5, 10, DAY30])}))
+        st.fixed_dictionaries({"op": st.just("advance"), "seconds": st.sampled_from([1, 1, 2, 3, 5, 10, DAY30])}),
+        st.fixed_dictionaries({"op": st.just("handover"), "keep": st.sampled_from(["copy", "original"])}))
     step = st.one_of(store, store, cas, read, read, arith, other)
     cfg = st.fixed_dictionaries({"key_prefix": st.sampled_from([b"", b"", b"ns:", "sp."]), "default_noreply": st.sampled_from([True, False, True, False, 1, 0, "yes", ""]), "allow_unicode_keys": st.just(uni),
                                  "cas_start": st.sampled_from([0, 999999990, 2 ** 32 + 5, 2 ** 63 + 11, 2 ** 64 - 500]),
